@@ -167,8 +167,43 @@ def run(check):
                         src, (e.get("data") or {}).get("raw"), why)))
         return vs
 
+    # (d) two workflow trees that use the same sub-workflow file name with different contents, prepared and run one after the
+    # other through one step registry: every run's values must come from its own files
+    from ..model import Step
+    seq_cases = []
+    for j in range(check.pick(12, 80)):
+        rng = random.Random(derive_seed(check.seed, "c02-seq", j))
+        progs = []
+        for k, nsub in enumerate(rng.sample([1, 2, 3], 2) + [rng.choice([1, 2, 3])]):
+            sub = gen.sub_program("sub.yaml", nsub)
+            loop = Step("loop", "foreach", sub=sub, items=[{"tag": Expr(In("tag"))}, {"tag": "k%d" % k}], parallelism=rng.choice([1, 2]))
+            progs.append(Program([loop], {"success": {"d": Expr(Ref("loop", "outputs", "success", "data"))}}, gen.BASE_INPUT))
+        inputs = [{"tag": "Q%d_%d" % (j, k)} for k in range(len(progs))]
+        scripts = {}
+        for pr in progs:
+            scripts.update(gen.make_scripts(pr.steps, {}))
+        seq = [{"files": pr.files(), "input": inp} for pr, inp in zip(progs, inputs)]
+        sems = [ref.RefSem(pr, scripts, ref.normalise_input(pr.input_schema, inp)) for pr, inp in zip(progs, inputs)]
+        seq_cases.append(({"id": "c02-q%04d" % j, "mode": "seq", "files": {}, "scripts": scripts, "runs": [], "extra": {"sequence": seq}}, sems))
     with harness.Runner() as rn:
         runfam.run_and_monitor(check, rn, items, {"C02"}, on_result=on_result, monitor=monitor)
+        seq_out = rn.run_cases([c for c, _s in seq_cases])
+    for case, sems in seq_cases:
+        o = seq_out.get(case["id"], {})
+        check.count()
+        if "result" not in o:
+            check.inconclusive_case(case["id"], str(o.get("death", {}).get("key")))
+            continue
+        for pos, (sm, rr) in enumerate(zip(sems, o["result"].get("runs") or [])):
+            exp = sm.result()["avail"].get("success")
+            if rr.get("err"):
+                check.report("sequence@run-failed", "tree %d of a sequence through one step registry failed: %s" % (pos, rr["err"][:200]), {"case": case})
+                continue
+            m = ref.match(exp, ref.denum(rr.get("data")))
+            if m:
+                check.report("sequence@foreign-sub-workflow", "tree %d of a sequence through one step registry: the loop's steps did not work on this tree's sub-workflow file: %s" % (pos, m),
+                             {"case": case, "run": rr})
+        check.nontrivial("seq|%d" % len(sems))
     check.extra.update(stats)
     check.extra["distinct_plugin_event_orders"] = len(orders)
     if stats["consumer_first_observed"] == 0:
